@@ -1134,6 +1134,15 @@ def method(I, recv, name, args, e, env):
                 out.insert(pos, kx)
             recv[:] = [x for _, x in out]
             return UNIT
+        if name == "dedup_by":
+            # Vec::dedup_by(|b, a| same(b, a)): b is the later element, a the one kept before it
+            out = []
+            for x in recv:
+                if out and I.truth(I.call_closure(args[0], [x, out[-1]])):
+                    continue
+                out.append(x)
+            recv[:] = out
+            return UNIT
         if name == "dedup_by_key" and getattr(I, "model_sort", False):
             # removes all but the first of consecutive elements with equal keys
             out = []
@@ -1173,6 +1182,24 @@ def method(I, recv, name, args, e, env):
             return abs(recv) if isinstance(recv, float) else z3.fpAbs(recv)
         if name == "is_sign_negative":
             return math.copysign(1.0, recv) < 0 if isinstance(recv, float) else z3.fpIsNegative(recv)
+        if name == "is_sign_positive":
+            return math.copysign(1.0, recv) > 0 if isinstance(recv, float) else z3.fpIsPositive(recv)
+        if name in ("max", "min") and len(args) == 1 and (is_f64(args[0]) or isinstance(args[0], int)):
+            # f64::max / min: if one argument is NaN the other is returned
+            a, b = recv, (float(args[0]) if isinstance(args[0], int) else args[0])
+            if isinstance(a, float) and isinstance(b, float):
+                if math.isnan(a):
+                    return b
+                if math.isnan(b):
+                    return a
+                return max(a, b) if name == "max" else min(a, b)
+            fa, fb = to_fp(a), to_fp(b)
+            pick = z3.fpMax(fa, fb) if name == "max" else z3.fpMin(fa, fb)
+            return z3.If(z3.fpIsNaN(fa), fb, z3.If(z3.fpIsNaN(fb), fa, pick))
+        if name == "clamp" and len(args) == 2:
+            lo, hi = to_fp(args[0]), to_fp(args[1])
+            x = to_fp(recv)
+            return z3.If(z3.fpIsNaN(x), x, z3.If(z3.fpLT(x, lo), lo, z3.If(z3.fpGT(x, hi), hi, x)))
         if name == "partial_cmp":
             a, b = recv, args[0]
             if I.truth(Or(f_isnan(a), f_isnan(b))):
